@@ -156,6 +156,182 @@ Proof.
   intros Hh Ht Hhd Hgz Hfirst Hm. unfold model_ok in Hm.
   rewrite (write_history_current _ _ _ _ Hh Ht Hhd Hgz Hfirst) in Hm.
   apply andb_true_iff in Hm. destruct Hm as [Hm _].
+  apply andb_true_iff in Hm. destruct Hm as [Hm _].
   apply andb_true_iff in Hm. destruct Hm as [He Hw].
   apply Z.eqb_eq in He. apply zlist_eqb_eq in Hw. split; [symmetry; exact He|symmetry; exact Hw].
+Qed.
+
+(* =====================================================================================
+   Phase 3: end-to-end statements — write a history, read the file back, get the table
+   ===================================================================================== *)
+From BNP Require Import Proofs.C03_read.
+
+(* the writer at /repo HEAD (the switch [run_hist] selects the repaired writer): every history over tables in the
+   writer's domain, plain or gzip, appended or not — no further guard *)
+Theorem write_history_head f header gz h :
+  hist_ok f h -> tail_appends h -> (header = [] \/ has_header f = true) ->
+  run_hist f header gz h = (0, spec_file f header h).
+Proof. exact (write_history_fixed_writer f header gz h). Qed.
+
+(* per format *)
+Corollary write_pieces_vcf (hls : list (list Z)) gz h :
+  hist_ok Vcf h -> tail_appends h ->
+  run_hist Vcf (header_of hls) gz h = (0, spec_header (header_of hls) h ++ serialise Vcf (rows_of_hist h)).
+Proof. intros Hh Ht. apply write_history_head; auto. Qed.
+Corollary write_pieces_delim gz h :
+  hist_ok Delim h -> tail_appends h -> run_hist Delim [] gz h = (0, serialise Delim (rows_of_hist h)).
+Proof.
+  intros Hh Ht. rewrite write_history_head by auto. unfold spec_file, spec_header.
+  destruct h as [|s t]; [reflexivity|]. destruct (s_append s); [reflexivity|]. destruct (existsb _ _); reflexivity.
+Qed.
+Corollary write_pieces_fasta w gz h :
+  hist_ok (Fasta w) h -> tail_appends h -> run_hist (Fasta w) [] gz h = (0, serialise (Fasta w) (rows_of_hist h)).
+Proof.
+  intros Hh Ht. rewrite write_history_head by auto. unfold spec_file, spec_header.
+  destruct h as [|s t]; [reflexivity|]. destruct (s_append s); [reflexivity|]. destruct (existsb _ _); reflexivity.
+Qed.
+Corollary write_pieces_fastq gz h :
+  hist_ok Fastq h -> tail_appends h -> run_hist Fastq [] gz h = (0, serialise Fastq (rows_of_hist h)).
+Proof.
+  intros Hh Ht. rewrite write_history_head by auto. unfold spec_file, spec_header.
+  destruct h as [|s t]; [reflexivity|]. destruct (s_append s); [reflexivity|]. destruct (existsb _ _); reflexivity.
+Qed.
+
+(* ---- round trips: the reference reader on what the model writer produced ---- *)
+Theorem roundtrip_delim pf schema gz h :
+  hist_ok Delim h -> tail_appends h -> Forall (row_ok pf schema) (rows_of_hist h) ->
+  parse_raw_with pf Delim schema (snd (run_hist Delim [] gz h)) = Some (rows_of_hist h).
+Proof. intros Hh Ht Hr. rewrite write_pieces_delim by assumption. apply parse_serialise_delim_rows, Hr. Qed.
+
+Lemma spec_header_cases header h : spec_header header h = header \/ spec_header header h = [].
+Proof.
+  unfold spec_header. destruct h as [|s t]; [right; reflexivity|].
+  destruct (s_append s); [right; reflexivity|]. destruct (existsb _ _); [left|right]; reflexivity.
+Qed.
+Theorem roundtrip_vcf pf schema hls gz h :
+  hist_ok Vcf h -> tail_appends h -> Forall (header_line_ok) hls -> Forall (vcf_row_ok pf schema) (rows_of_hist h) ->
+  parse_raw_with pf Vcf schema (snd (run_hist Vcf (header_of hls) gz h)) = Some (rows_of_hist h).
+Proof.
+  intros Hh Ht Hl Hr. rewrite write_pieces_vcf by assumption. cbn [snd].
+  destruct (spec_header_cases (header_of hls) h) as [-> | ->].
+  - apply parse_serialise_vcf; assumption.
+  - apply (parse_serialise_vcf pf schema [] (rows_of_hist h)); [constructor|assumption].
+Qed.
+Theorem roundtrip_fasta w schema gz h :
+  1 <= w -> hist_ok (Fasta w) h -> tail_appends h -> Forall fasta_row_ok (rows_of_hist h) ->
+  parse_raw (Fasta w) schema (snd (run_hist (Fasta w) [] gz h)) = Some (rows_of_hist h).
+Proof. intros Hw Hh Ht Hr. rewrite write_pieces_fasta by assumption. apply parse_serialise_fasta; assumption. Qed.
+Theorem roundtrip_fastq schema gz h :
+  hist_ok Fastq h -> tail_appends h -> Forall fastq_row_ok (rows_of_hist h) ->
+  parse_raw Fastq schema (snd (run_hist Fastq [] gz h)) = Some (rows_of_hist h).
+Proof. intros Hh Ht Hr. rewrite write_pieces_fastq by assumption. apply parse_serialise_fastq, Hr. Qed.
+
+(* ---- VCF POS: the eager path and the lazy path with a replaced POS column write the same bytes ---- *)
+Theorem vcf_pos_paths_agree rows : from_data_lazy_pos rows = snd (from_data Vcf rows).
+Proof. reflexivity. Qed.
+Theorem vcf_lazy_pos_canonical rows : rows <> [] -> table_ok Vcf rows ->
+  from_data_lazy_pos rows = serialise Vcf rows.
+Proof. intros Hne Hok. rewrite vcf_pos_paths_agree, (from_data_canonical Vcf rows Hne Hok). reflexivity. Qed.
+
+(* ---- model_ok => spec_ok ---- *)
+Fixpoint float_free_row (r : row) : bool :=
+  match r with [] => true | FF _ _ _ :: _ => false | _ :: r' => float_free_row r' end.
+Lemma fld_eqb_strict a b : (match a with FF _ _ _ => false | _ => true end) = true ->
+  fld_eqb false a b = true -> fld_eqb true a b = true.
+Proof. destruct a, b; cbn; try discriminate; auto. Qed.
+Lemma row_eqb_strict a : float_free_row a = true -> forall b, row_eqb false a b = true -> row_eqb true a b = true.
+Proof.
+  induction a as [|x a IH]; intros Hf b H; destruct b as [|y b]; cbn in *; try discriminate; [reflexivity|].
+  apply andb_true_iff in H. destruct H as [H1 H2]. apply andb_true_iff. split.
+  - apply fld_eqb_strict; [destruct x; try reflexivity; discriminate|exact H1].
+  - apply IH; [destruct x; try exact Hf; discriminate|exact H2].
+Qed.
+Lemma rows_eqb_strict a : forallb float_free_row a = true -> forall b, rows_eqb false a b = true -> rows_eqb true a b = true.
+Proof.
+  induction a as [|x a IH]; intros Hf b H; destruct b as [|y b]; cbn in *; try discriminate; [reflexivity|].
+  apply andb_true_iff in Hf. destruct Hf as [Hf1 Hf2].
+  apply andb_true_iff in H. destruct H as [H1 H2]. apply andb_true_iff. split.
+  - apply row_eqb_strict; assumption.
+  - apply IH; assumption.
+Qed.
+Lemma zlist_eqb_refl a : zlist_eqb a a = true.
+Proof. induction a as [|x a IH]; [reflexivity|]. cbn. rewrite Z.eqb_refl, IH. reflexivity. Qed.
+
+(* if the reference reader returns the table from the canonical file (the read-back theorems give that per
+   format), agreement with the model implies the whole property on that case — for float-free tables *)
+Theorem model_ok_spec_ok (c : case) :
+  hist_ok (k_fmt c) (k_hist c) -> tail_appends (k_hist c) ->
+  (k_header c = [] \/ has_header (k_fmt c) = true) ->
+  parse_file (k_fmt c) (k_schema c) (spec_file (k_fmt c) (k_header c) (k_hist c)) = Some (rows_of_hist (k_hist c)) ->
+  (k_alt_file c = [] \/ parse_file (k_fmt c) (k_schema c) (k_alt_file c) = Some (rows_of_hist (k_hist c))) ->
+  forallb float_free_row (rows_of_hist (k_hist c)) = true ->
+  model_ok c = true -> spec_ok c = true.
+Proof.
+  intros Hh Ht Hhd Hparse Halt Hff Hm. unfold model_ok in Hm.
+  rewrite (write_history_head _ _ _ _ Hh Ht Hhd) in Hm.
+  apply andb_true_iff in Hm. destruct Hm as [Hm Haltm].
+  apply andb_true_iff in Hm. destruct Hm as [Hm Hread].
+  apply andb_true_iff in Hm. destruct Hm as [He Hw].
+  apply Z.eqb_eq in He. apply zlist_eqb_eq in Hw. cbn [Z.eqb negb orb] in Hread.
+  rewrite <- Hw, Hparse in Hread. apply andb_true_iff in Hread. destruct Hread as [Hok Heq].
+  unfold spec_ok. rewrite <- He, <- Hw, Hok. cbn [Z.eqb andb]. rewrite zlist_eqb_refl. cbn [andb].
+  rewrite (rows_eqb_strict _ Hff _ Heq). cbn [andb].
+  destruct (k_alt_file c) as [|x l] eqn:E; [reflexivity|].
+  destruct Halt as [Ha|Ha]; [discriminate|]. rewrite Ha in Haltm.
+  apply andb_true_iff in Haltm. destruct Haltm as [Hok2 Heq2]. rewrite Hok2. cbn [andb].
+  apply rows_eqb_strict; assumption.
+Qed.
+
+Lemma spec_file_headerless f h : spec_file f [] h = serialise f (rows_of_hist h).
+Proof.
+  unfold spec_file, spec_header. destruct h as [|s t]; [reflexivity|].
+  destruct (s_append s); [reflexivity|]. destruct (existsb _ _); reflexivity.
+Qed.
+
+(* per format: delimited tables without float columns (BED3/6/12, GTF, SAM incl. the tags column) *)
+Theorem model_ok_spec_ok_delim (c : case) :
+  k_fmt c = Delim -> k_header c = [] -> k_alt_file c = [] ->
+  hist_ok Delim (k_hist c) -> tail_appends (k_hist c) ->
+  Forall (row_ok no_float_value (k_schema c)) (rows_of_hist (k_hist c)) ->
+  id_cols_ok (k_schema c) (rows_of_hist (k_hist c)) = true ->
+  forallb float_free_row (rows_of_hist (k_hist c)) = true ->
+  model_ok c = true -> spec_ok c = true.
+Proof.
+  intros Hf Hhd Ha Hh Ht Hr Hid Hff. apply model_ok_spec_ok; rewrite ?Hf, ?Hhd; auto.
+  rewrite spec_file_headerless. apply parse_file_serialise_delim; assumption.
+Qed.
+Theorem model_ok_spec_ok_fasta (c : case) w :
+  k_fmt c = Fasta w -> k_header c = [] -> k_alt_file c = [] -> 1 <= w ->
+  hist_ok (Fasta w) (k_hist c) -> tail_appends (k_hist c) ->
+  Forall fasta_row_ok (rows_of_hist (k_hist c)) ->
+  model_ok c = true -> spec_ok c = true.
+Proof.
+  intros Hf Hhd Ha Hw Hh Ht Hr. apply model_ok_spec_ok; rewrite ?Hf, ?Hhd; auto.
+  - rewrite spec_file_headerless. unfold parse_file. rewrite parse_serialise_fasta by assumption. reflexivity.
+  - apply forallb_forall. intros r Hin. rewrite Forall_forall in Hr. destruct (Hr r Hin) as [n [s [-> _]]]. reflexivity.
+Qed.
+Theorem model_ok_spec_ok_fastq (c : case) :
+  k_fmt c = Fastq -> k_header c = [] -> k_alt_file c = [] ->
+  hist_ok Fastq (k_hist c) -> tail_appends (k_hist c) ->
+  Forall fastq_row_ok (rows_of_hist (k_hist c)) ->
+  model_ok c = true -> spec_ok c = true.
+Proof.
+  intros Hf Hhd Ha Hh Ht Hr. apply model_ok_spec_ok; rewrite ?Hf, ?Hhd; auto.
+  - rewrite spec_file_headerless. unfold parse_file. rewrite parse_serialise_fastq by assumption. reflexivity.
+  - apply forallb_forall. intros r Hin. rewrite Forall_forall in Hr. destruct (Hr r Hin) as [n [s [q [-> _]]]]. reflexivity.
+Qed.
+Theorem model_ok_spec_ok_vcf (c : case) hls :
+  k_fmt c = Vcf -> k_header c = header_of hls -> k_alt_file c = [] -> Forall header_line_ok hls ->
+  hist_ok Vcf (k_hist c) -> tail_appends (k_hist c) ->
+  Forall (vcf_row_ok no_float_value (k_schema c)) (rows_of_hist (k_hist c)) ->
+  id_cols_ok (k_schema c) (rows_of_hist (k_hist c)) = true ->
+  forallb float_free_row (rows_of_hist (k_hist c)) = true ->
+  model_ok c = true -> spec_ok c = true.
+Proof.
+  intros Hf Hhd Ha Hl Hh Ht Hr Hid Hff. apply model_ok_spec_ok; rewrite ?Hf, ?Hhd; auto.
+  unfold parse_file, parse_raw, spec_file.
+  destruct (spec_header_cases (header_of hls) (k_hist c)) as [-> | ->].
+  - rewrite parse_serialise_vcf by assumption. rewrite Hid, orb_true_r. reflexivity.
+  - change (@nil Z) with (header_of []).
+    rewrite (parse_serialise_vcf no_float_value (k_schema c) [] _ ltac:(constructor) Hr). rewrite Hid, orb_true_r. reflexivity.
 Qed.
